@@ -4,7 +4,7 @@ import FitProps.EndToEndFieldLemmas
 Field layer of the RE-ENCODING direction of C01: what `Fit.DecApi.decodeField` / `decodeDevField` return for ARBITRARY bytes
 (`interpField_good`, `interpDev_good`): the decoded field carries the factory's attributes, its value is well-formed, lies
 outside the finding classes of the forward direction under the flags the decoder will read it with when it is written again
-(`Fit.E2E.readAs` / `devReadAs`), and — outside the two classes `kfUndersizedF`, `kfPiecesF`/`kfPiecesD` — is its own
+(`Fit.E2E.readAs` / `devReadAs`), and — outside the class `kfPiecesF`/`kfPiecesD` — is its own
 wire-normal form. Includes the fallback for undersized fields (`convertBytesToValue`: bounds of the assembled number and of
 the uint→float conversions).
 -/
